@@ -143,8 +143,10 @@ InvSliceSlice ==
           h2 == SliceOf(h1, w2[1], w2[2]) IN
       NoFail(DeriveTable(R, T, ObsOf(G), LineOf("time_slice2", G, h2,
                                                 [f |-> w1[1], g |-> w1[2], f2 |-> w2[1], g2 |-> w2[2]])))
+\* (accumulative sources included: the model re-adds the stored intervals into a removal-enabled graph, the table
+\*  answers "KF8" for the presence clause - configuration MC_derived_acc)
 InvConvert ==
-  G.rem =>
+  TRUE =>
     IF G.dir
     THEN /\ NoFail(DeriveTable(R, T, ObsOf(G), LineOf("to_undirected", G, ToUndirectedOf(G, FALSE), [recip |-> FALSE])))
          /\ NoFail(DeriveTable(R, T, ObsOf(G), LineOf("to_undirected", G, ToUndirectedOf(G, TRUE), [recip |-> TRUE])))
